@@ -6,9 +6,17 @@
 //!         | repo    (real repository on the in-memory backend: the crafted index files are saved with
 //!                    `save_file`, the repository is re-opened and indexed with `to_indexed` / `to_indexed_ids`
 //!                    (/ `drop_data_from_index`), i.e. through `GlobalIndex::new_from_collector`)
-//!   files = index files joined by `/` (`-` = none); file = `<packs>|<packs_to_delete>[|<fault>]`; pack list = `-` or packs
-//!           joined by `,`; pack = `<id64>:<size|->:<blobs>`; blobs = `-` or blobs joined by `+`;
+//!   files = index files joined by `/` (`-` = none); file = `<packs>|<packs_to_delete>[|s=<refs>][|<fault>]`; pack list = `-` or
+//!           packs joined by `,`; pack = `<id64>:<size|->:<blobs>`; blobs = `-` or blobs joined by `+`;
 //!           blob = `<id64>.<t|d>.<offset>.<length>.<ulen|->`
+//!   refs  = the file's `supersedes` field (no `s=` part: the field is absent, as in every file rustic writes): `-` = the empty
+//!           list, else refs joined by `,`; ref = `f<k>` = the id of the k-th index file of THIS op line (0-based; a PRESENT index
+//!           file: an earlier one = "a rewritten index names the files it replaces, which are still there", a later one, or the
+//!           file itself — chains and cycles) | `<id64>` = any other id (an ABSENT index file).
+//!           `repo` source: a file that is referenced by itself or by an earlier file cannot have the hash of its (nonce-dependent)
+//!           ciphertext as id before it is written, so it is stored under a chosen id (`planted_id(k)`; its JSON sealed with the
+//!           repository key; reading does not compare ids with hashes); all other files are saved with `save_file` in op-line
+//!           order and references to them are their real ids.  Loading must IGNORE the field (Props/C17 `supersedes_is_ignored`).
 //!   fault (src = repo only; the file is saved like the others, then fetching it is made to fail):
 //!           `read`      the backend's read of exactly this file returns an error             -> Backend
 //!           `flip.<n>`  bit `n mod (8*len)` of the stored bytes flipped (MAC mismatch)        -> Cryptography
@@ -206,7 +214,7 @@ pub fn generate(thorough: bool, rng: &mut Rng, ops: &mut Vec<String>, stats: &mu
         };
         let pool = id_pool(rng, pool_n);
         let mode = *rng.pick(&["full", "full", "ids", "trees", "dropdata"]);
-        let src = if mode != "trees" && rng.chance(1, 4) { "repo" } else { "direct" };
+        let src = if mode != "trees" && rng.chance(1, 3) { "repo" } else { "direct" };
         stats.hit(format!("mode.{mode}"));
         stats.hit(format!("src.{src}"));
         let n_files = if rng.chance(1, 12) { 0 } else { 1 + rng.below(4) };
@@ -248,6 +256,90 @@ pub fn generate(thorough: bool, rng: &mut Rng, ops: &mut Vec<String>, stats: &mu
         }
         stats.hit(format!("files.{}", files.len()));
         stats.add("packs", all_packs.len() as u64);
+        // `supersedes` lists (mostly the repo source, where loading streams whole index files; a few direct cases for the
+        // parsers): ids of present index files (earlier ones = a rewritten index next to the files it replaces, later ones,
+        // the file itself; chains, cycles, everything names everything), ids of absent files, the empty list, repeats
+        if !files.is_empty() && rng.chance(if src == "repo" { 3 } else { 1 }, if src == "repo" { 5 } else { 8 }) {
+            let n = files.len();
+            let absent = |rng: &mut Rng| hex::encode(rng.bytes(32));
+            let mut sup: Vec<Option<Vec<String>>> = vec![None; n];
+            let style = rng.below(8);
+            stats.hit(format!("supersedes.style.{}", ["rewrite-last", "rewrite-last", "random", "random", "cycle", "chain", "absent-only", "all-name-all"][style as usize]));
+            match style {
+                // an index rewrite caught half-way: the last file(s) name earlier files (all, or some), which are still there
+                0 | 1 => {
+                    let first_new = if n > 1 { 1 + rng.below(n as u64 - 1) as usize } else { 0 };
+                    for k in first_new..n {
+                        let mut v: Vec<String> = (0..first_new).filter(|_| style == 0 || rng.chance(2, 3)).map(|j| format!("f{j}")).collect();
+                        if rng.chance(1, 4) {
+                            v.push(absent(rng));
+                        }
+                        sup[k] = Some(v);
+                    }
+                }
+                2 | 3 => {
+                    for item in sup.iter_mut() {
+                        if rng.chance(2, 3) {
+                            let m = rng.below(4);
+                            let v = (0..m).map(|_| if rng.chance(3, 4) { format!("f{}", rng.below(n as u64)) } else { absent(rng) }).collect();
+                            *item = Some(v);
+                        }
+                    }
+                }
+                // cycle f0 -> f1 -> … -> f0 (one file: names itself)
+                4 => {
+                    for (k, item) in sup.iter_mut().enumerate() {
+                        *item = Some(vec![format!("f{}", (k + 1) % n)]);
+                    }
+                }
+                // chain: every file names its predecessor (and sometimes the one before)
+                5 => {
+                    for (k, item) in sup.iter_mut().enumerate().skip(1) {
+                        let mut v = vec![format!("f{}", k - 1)];
+                        if k > 1 && rng.chance(1, 2) {
+                            v.push(format!("f{}", k - 2));
+                        }
+                        *item = Some(v);
+                    }
+                    if n == 1 {
+                        sup[0] = Some(vec!["f0".to_string()]);
+                    }
+                }
+                6 => {
+                    for item in sup.iter_mut() {
+                        if rng.chance(2, 3) {
+                            *item = Some((0..1 + rng.below(3)).map(|_| absent(rng)).collect());
+                        }
+                    }
+                }
+                _ => {
+                    for item in sup.iter_mut() {
+                        *item = Some((0..n).map(|j| format!("f{j}")).collect());
+                    }
+                }
+            }
+            let mut any = false;
+            for (k, item) in sup.into_iter().enumerate() {
+                let Some(v) = item else { continue };
+                any = true;
+                stats.hit("supersedes.files");
+                if v.is_empty() {
+                    stats.hit("supersedes.empty-list");
+                }
+                for r in &v {
+                    match r.strip_prefix('f').filter(|_| r.len() < 64).and_then(|j| j.parse::<usize>().ok()) {
+                        Some(j) if j < k => stats.hit("supersedes.ref.earlier-file"),
+                        Some(j) if j == k => stats.hit("supersedes.ref.self"),
+                        Some(_) => stats.hit("supersedes.ref.later-file"),
+                        None => stats.hit("supersedes.ref.absent-id"),
+                    }
+                }
+                files[k] = format!("{}|s={}", files[k], if v.is_empty() { "-".to_string() } else { v.join(",") });
+            }
+            if any {
+                stats.hit(format!("supersedes.cases.{src}"));
+            }
+        }
         // load faults (repo source): fetching one (sometimes two, rarely every) of the saved index files fails
         if src == "repo" && !files.is_empty() && rng.chance(1, 2) {
             stats.hit("fault.cases");
@@ -397,21 +489,77 @@ fn parse_fault(s: &str) -> Option<Fault> {
     })
 }
 
-pub fn parse_files(s: &str) -> Option<Vec<(IndexFile, Option<Fault>)>> {
+/// one entry of a `supersedes` list as the op line writes it
+#[derive(Clone, Copy, Debug, PartialEq, Eq)]
+pub enum SupRef {
+    /// the id of the k-th index file of the op line
+    File(usize),
+    /// any other id
+    Id(Id),
+}
+
+pub struct ParsedFile {
+    pub packs: Vec<IndexPack>,
+    pub packs_to_delete: Vec<IndexPack>,
+    pub supersedes: Option<Vec<SupRef>>,
+    pub fault: Option<Fault>,
+}
+
+fn parse_refs(s: &str) -> Option<Vec<SupRef>> {
     if s == "-" {
         return Some(vec![]);
     }
-    s.split('/')
-        .map(|f| {
-            let parts: Vec<&str> = f.split('|').collect();
-            let fault = match parts.len() {
-                2 => None,
-                3 => Some(parse_fault(parts[2])?),
-                _ => return None,
-            };
-            Some((IndexFile { supersedes: None, packs: parse_packs(parts[0])?, packs_to_delete: parse_packs(parts[1])? }, fault))
+    s.split(',')
+        .map(|r| match r.strip_prefix('f') {
+            Some(k) if r.len() < 64 => {
+                if k.is_empty() || !k.bytes().all(|b| b.is_ascii_digit()) {
+                    return None;
+                }
+                Some(SupRef::File(k.parse().ok()?))
+            }
+            _ => Some(SupRef::Id(parse_id(r)?)),
         })
         .collect()
+}
+
+pub fn parse_files(s: &str) -> Option<Vec<ParsedFile>> {
+    if s == "-" {
+        return Some(vec![]);
+    }
+    let files: Option<Vec<ParsedFile>> = s
+        .split('/')
+        .map(|f| {
+            let parts: Vec<&str> = f.split('|').collect();
+            if parts.len() < 2 {
+                return None;
+            }
+            let (supersedes, fault) = match &parts[2..] {
+                [] => (None, None),
+                [x] => match x.strip_prefix("s=") {
+                    Some(r) => (Some(parse_refs(r)?), None),
+                    None => (None, Some(parse_fault(x)?)),
+                },
+                [x, y] => (Some(parse_refs(x.strip_prefix("s=")?)?), Some(parse_fault(y)?)),
+                _ => return None,
+            };
+            Some(ParsedFile { packs: parse_packs(parts[0])?, packs_to_delete: parse_packs(parts[1])?, supersedes, fault })
+        })
+        .collect();
+    let files = files?;
+    // a reference names a file of this op line
+    let n = files.len();
+    if files.iter().any(|f| f.supersedes.iter().flatten().any(|r| matches!(r, SupRef::File(k) if *k >= n))) {
+        return None;
+    }
+    Some(files)
+}
+
+/// the id under which the k-th index file is stored when it cannot be saved under the hash of its ciphertext (it is named by
+/// its own or by an earlier file's `supersedes` list)
+fn planted_id(k: usize) -> Id {
+    let mut a = [0u8; 32];
+    a.copy_from_slice(&Rng::new(0xc17_5eed_0000 + k as u64).bytes(32));
+    Id::new(a)
 }
 
 // ---------------------------------------------------------------- observation
@@ -512,9 +660,29 @@ fn complete_oracle(files: &[IndexFile], mode: &str, has: &dyn Fn(BlobType, &Blob
     None
 }
 
-fn run(mode: &str, src: &str, files: Vec<(IndexFile, Option<Fault>)>, queries: &[BlobId]) -> String {
-    let faults: Vec<Option<Fault>> = files.iter().map(|f| f.1).collect();
-    let files: Vec<IndexFile> = files.into_iter().map(|f| f.0).collect();
+fn run(mode: &str, src: &str, parsed: Vec<ParsedFile>, queries: &[BlobId]) -> String {
+    let faults: Vec<Option<Fault>> = parsed.iter().map(|f| f.fault).collect();
+    let sups: Vec<Option<Vec<SupRef>>> = parsed.iter().map(|f| f.supersedes.clone()).collect();
+    // `planted[k]`: file k is named by its own or an earlier file's list -> stored under `planted_id(k)` (repo source)
+    let planted: Vec<bool> =
+        (0..parsed.len()).map(|k| sups[..=k].iter().flatten().flatten().any(|r| *r == SupRef::File(k))).collect();
+    // the index files; the `supersedes` lists are resolved below for the repo source (real ids), here with the chosen ids
+    // (the direct source hands `file.packs` to the collector hook, nothing else of the file)
+    let mut files: Vec<IndexFile> = parsed
+        .into_iter()
+        .map(|f| IndexFile {
+            supersedes: f.supersedes.map(|v| {
+                v.iter()
+                    .map(|r| match r {
+                        SupRef::File(k) => planted_id(*k).into(),
+                        SupRef::Id(id) => (*id).into(),
+                    })
+                    .collect()
+            }),
+            packs: f.packs,
+            packs_to_delete: f.packs_to_delete,
+        })
+        .collect();
     if src != "repo" && faults.iter().any(Option::is_some) {
         return "bad-op".into();
     }
@@ -554,9 +722,10 @@ fn run(mode: &str, src: &str, files: Vec<(IndexFile, Option<Fault>)>, queries: &
             it = iter_obs(index);
         }
         "repo" => {
-            for (i, f) in files.iter().enumerate() {
-                for g in &files[..i] {
-                    if serde_json::to_string(f).ok() == serde_json::to_string(g).ok() {
+            {
+                let content = |f: &IndexFile| (serde_json::to_string(&f.packs).ok(), serde_json::to_string(&f.packs_to_delete).ok());
+                for (i, f) in files.iter().enumerate() {
+                    if files[..i].iter().any(|g| content(f) == content(g)) {
                         return "bad-op".into();
                     }
                 }
@@ -568,12 +737,43 @@ fn run(mode: &str, src: &str, files: Vec<(IndexFile, Option<Fault>)>, queries: &
             {
                 let dbe = rustic_core::verif::repository::dbe(&repo);
                 let seal = |plain: &[u8]| dbe.key().encrypt_data(plain).map(Bytes::from);
-                for (f, fault) in files.iter().zip(&faults) {
-                    let id = match dbe.save_file(f) {
-                        Ok(id) => Id::from(id),
-                        Err(e) => return errkind(&e),
+                let mut real_ids: Vec<Option<Id>> = vec![None; files.len()];
+                for k in 0..files.len() {
+                    // references: chosen id of a planted file, real id of an earlier saved file
+                    if let Some(refs) = &sups[k] {
+                        let mut v = Vec::new();
+                        for r in refs {
+                            v.push(match r {
+                                SupRef::Id(id) => (*id).into(),
+                                SupRef::File(j) if planted[*j] => planted_id(*j).into(),
+                                SupRef::File(j) => match real_ids[*j] {
+                                    Some(id) => id.into(),
+                                    None => return "oracle-fail:harness-unresolved-supersedes-ref".into(),
+                                },
+                            });
+                        }
+                        files[k].supersedes = Some(v);
+                    }
+                    let f = &files[k];
+                    let id = if planted[k] {
+                        let id = planted_id(k);
+                        let json = match serde_json::to_vec(f) {
+                            Ok(j) => j,
+                            Err(_) => return "oracle-fail:harness-json".into(),
+                        };
+                        match seal(&json) {
+                            Ok(b) => h.be.put_raw(FileType::Index, id, b),
+                            Err(e) => return errkind(&e),
+                        }
+                        id
+                    } else {
+                        match dbe.save_file(f) {
+                            Ok(id) => Id::from(id),
+                            Err(e) => return errkind(&e),
+                        }
                     };
-                    let Some(fault) = fault else { continue };
+                    real_ids[k] = Some(id);
+                    let Some(fault) = &faults[k] else { continue };
                     let Some(stored) = h.be.get(FileType::Index, &id) else { return "oracle-fail:saved-index-file-not-stored".into() };
                     let replaced = match fault {
                         Fault::Read => {
